@@ -35,6 +35,9 @@ def classes_for(role, code):
         out.append((dict(t='float', neg=neg, m=m, e=e, asint=0), x))
         if e >= 0 and code == 'F':
             out.append((dict(t='float', neg=neg, m=m, e=e, asint=1), (-1) ** neg * (m << e)))
+    if code == 'F':
+        # an integer beyond the range of a double (float() of it overflows)
+        out.append((dict(t='float', neg=0, m=1, e=1100, asint=1), 1 << 1100))
     out += [(dict(t='inf', neg=0), float('inf')), (dict(t='inf', neg=1), float('-inf')), (dict(t='nan'), float('nan'))]
     out += [(dict(t='str'), 'ab')]
     # text that spells a number is text all the same (float() and int() would parse it)
@@ -171,8 +174,8 @@ def main():
                         entries.append(('update_oo' + sk, (lambda s_: (lambda t: t.update(s_)))(src)))
                 if hasattr(cls, 'insert'):
                     entries.append(('insert', lambda t: t.insert(x, goodv)))
-            for name, f in entries:
-                t = fresh(cls, is_set)
+            for name, f in entries + [('empty:' + n_, f_) for n_, f_ in entries if f_ is not None]:
+                t = cls() if name.startswith('empty:') else fresh(cls, is_set)
                 before = snapshot(t, is_set)
                 try:
                     if name == 'ctor':
